@@ -146,24 +146,7 @@ func (tc *TypeConverter) TypeToExpr(t types.Type) ast.Expr {
 	}
 	switch typ := t.(type) {
 	case *types.Named:
-		obj := typ.Obj()
-		if obj.Pkg() == nil {
-			// Built-in type (e.g., error)
-			return ast.NewIdent(obj.Name())
-		}
-		// Check if this type is from an external package
-		if tc.currentPkg != nil && obj.Pkg() != tc.currentPkg {
-			// External package - add import and generate SelectorExpr
-			pkgPath := obj.Pkg().Path()
-			pkgName := obj.Pkg().Name()
-			actualName := tc.AddImport(pkgPath, pkgName)
-			return &ast.SelectorExpr{
-				X:   ast.NewIdent(actualName),
-				Sel: ast.NewIdent(obj.Name()),
-			}
-		}
-		// Same package - just use the type name
-		return ast.NewIdent(obj.Name())
+		return tc.typeNameToExpr(typ.Obj(), typ.TypeArgs())
 	case *types.Pointer:
 		return &ast.StarExpr{X: tc.TypeToExpr(typ.Elem())}
 	case *types.Slice:
@@ -202,6 +185,32 @@ func (tc *TypeConverter) TypeToExpr(t types.Type) ast.Expr {
 	default:
 		return ast.NewIdent(t.String())
 	}
+}
+
+// typeNameToExpr spells a declared type: qualified with the name its package is imported under when it
+// lives in another package, and followed by its type arguments when it is an instance of a generic type.
+func (tc *TypeConverter) typeNameToExpr(obj *types.TypeName, typeArgs *types.TypeList) ast.Expr {
+	var expr ast.Expr = ast.NewIdent(obj.Name())
+	// obj.Pkg() == nil: built-in type (e.g., error)
+	if obj.Pkg() != nil && tc.currentPkg != nil && obj.Pkg() != tc.currentPkg {
+		// External package - add import and generate SelectorExpr
+		actualName := tc.AddImport(obj.Pkg().Path(), obj.Pkg().Name())
+		expr = &ast.SelectorExpr{
+			X:   ast.NewIdent(actualName),
+			Sel: ast.NewIdent(obj.Name()),
+		}
+	}
+	if typeArgs.Len() == 0 {
+		return expr
+	}
+	args := make([]ast.Expr, 0, typeArgs.Len())
+	for i := 0; i < typeArgs.Len(); i++ {
+		args = append(args, tc.TypeToExpr(typeArgs.At(i)))
+	}
+	if len(args) == 1 {
+		return &ast.IndexExpr{X: expr, Index: args[0]}
+	}
+	return &ast.IndexListExpr{X: expr, Indices: args}
 }
 
 // lastPathElement returns the last element of an import path.
